@@ -17,18 +17,21 @@ import (
 const NumRegisters = 8
 
 type Environment struct {
-	store     map[string]Object
-	outer     *Environment
-	stack     *Environment // Different from outer when we attach to top level lambdas. see logic in NewFunctionEnvironment.
-	depth     int
-	cacheKey  string
-	ids       *trie.Trie
-	numSet    int64
-	getMiss   int64
-	cantCache bool
-	function  *Function
-	registers [NumRegisters]int64
-	numReg    int
+	store    map[string]Object
+	outer    *Environment
+	stack    *Environment // Different from outer when we attach to top level lambdas. see logic in NewFunctionEnvironment.
+	depth    int
+	cacheKey string
+	ids      *trie.Trie
+	numSet   int64
+	getMiss  int64
+	// cacheEpoch (top level only) counts the changes to what memoized functions may read without it
+	// counting as a dependency: top level functions and constants (see cacheSafe).
+	cacheEpoch int64
+	cantCache  bool
+	function   *Function
+	registers  [NumRegisters]int64
+	numReg     int
 }
 
 // Truly empty store suitable for macros storage.
@@ -278,7 +281,8 @@ func (e *Environment) Delete(name string) Object {
 	if e.depth == 0 {
 		e.numSet++
 	}
-	if _, ok := e.store[name]; ok {
+	if old, ok := e.store[name]; ok {
+		e.bumpCacheEpoch(name, old, nil)
 		delete(e.store, name)
 		log.Debugf("Delete(%s) found at %d %v", name, e.depth, e.cacheKey)
 		return TRUE
@@ -340,11 +344,32 @@ func (e *Environment) IsRef(name string) (*Environment, string) {
 	return nil, ""
 }
 
+// CacheEpoch changes whenever a top level function or constant is (re)defined, a new top level name appears
+// or anything is deleted at top level: remembered function results may depend on those and must be dropped.
+func (e *Environment) CacheEpoch() int64 {
+	for e.outer != nil {
+		e = e.outer
+	}
+	return e.cacheEpoch
+}
+
+func (e *Environment) bumpCacheEpoch(name string, old, val Object) {
+	if e.depth != 0 {
+		return
+	}
+	// A brand new top level name also counts: a function assigning to that name was creating a local so far
+	// and will update the global from now on.
+	if old == nil || Constant(name) || (val != nil && val.Type() == FUNC) || old.Type() == FUNC {
+		e.cacheEpoch++
+	}
+}
+
 func (e *Environment) create(name string, val Object) Object {
 	if e.depth == 0 {
 		e.numSet++
 		record(e.ids, name, val.Type())
 	}
+	e.bumpCacheEpoch(name, e.store[name], val)
 	val = Value(val)
 	e.store[name] = val
 	return val
@@ -360,6 +385,7 @@ func (e *Environment) update(name string, found, val Object) Object {
 		e = rr.RefEnv
 		name = rr.Name
 	}
+	e.bumpCacheEpoch(name, e.store[name], val)
 	e.store[name] = val
 	if e.depth == 0 {
 		e.numSet++
@@ -381,6 +407,7 @@ func (e *Environment) SetNoChecks(name string, val Object, create bool) Object {
 	// New name... let's see if it's really new or making it a ref.
 	if ref, ok := e.makeRef(name); ok {
 		log.Debugf("SetNoChecks(%s) created ref %s in %d", name, ref.Name, ref.RefEnv.depth)
+		ref.RefEnv.bumpCacheEpoch(ref.Name, ref.RefEnv.store[ref.Name], val)
 		ref.RefEnv.store[ref.Name] = Value(val) // kinda neat to make aliases but it can create loops, so not for now.
 		return val
 	}
